@@ -131,8 +131,10 @@ def snapshot(d):
     for root, _, files in os.walk(d):
         for f in files:
             p = os.path.join(root, f)
-            st_ = os.stat(p)
-            out[os.path.abspath(p)] = (st_.st_mtime_ns, st_.st_size)
+            # by content, not by time stamp: where the file system's clock ticks every few
+            # milliseconds only, a file rewritten at once with as many bytes looks untouched
+            with open(p, "rb") as fh:
+                out[os.path.abspath(p)] = hashlib.sha256(fh.read()).digest()
     return out
 
 
@@ -327,4 +329,4 @@ def run_case(c):
 
 def stages(tier):
     return [HypStage("images", lambda t: cases(t), run_case, {"quick": 120, "thorough": 3000},
-                     budget_s={"quick": 100, "thorough": 1200})]
+                     budget_s={"quick": 300, "thorough": 1200})]
